@@ -176,9 +176,9 @@ PROPS = {
                  "printable noise and token soup. Each text goes through zinc::from_str, Parser::make(reader).parse_value and the lazy "
                  "parse_grid_iterator (drained) over a hostile reader (chunks of 1/2/7/random/whole, Interrupted on every other call, "
                  "sticky I/O error at a random offset), or serde_json::from_str/from_slice::<Value>. oracle = returned Ok or Err; a panic "
-                 "(caught, with location), a worker death (attributed through the write-ahead progress marker) or more than 8*len+256 "
-                 "lexer steps confirmed with 1000x that fuel is a violation. distinct = distinct input texts"),
-        "assumptions": ["'terminates' is restated as: finishes within 8*len+256 steps of the three hooked lexer/scanner read functions "
+                 "(caught, with location), a worker death (attributed through the write-ahead progress marker) or more than 16*len+512 "
+                 "decoder steps (hook H1: scanner/lexer reads and every loop iteration) confirmed with 1000x that fuel is a violation. distinct = distinct input texts"),
+        "assumptions": ["'terminates' is restated as: finishes within 16*len+512 steps counted by hook H1 (Scanner::read, both Lexer::read, and every while/loop iteration of the Zinc and filter decoders) "
                         "(observed maximum is reported as max_ticks_per_byte); loops that do not pass through those functions would only "
                         "be seen by the wall-clock watchdog, which yields inconclusive, not a verdict",
                         "stack exhaustion depends on the build profile: quick uses the monitoring profile, thorough repeats the ladders in "
@@ -232,7 +232,7 @@ PROPS = {
         "rule": ("cases = filter texts: parenthesis ladders '(', '(a and ', '(not a or ' at depths 1..1e5 closed and unclosed; valid filters "
                  "(reference printer) with every prefix (thorough; 24 sampled in quick) and 24 stacked-mutation mutants each; operators "
                  "without operands, token soup, raw bytes; relationship terms. Filter::try_from runs under the panic/abort/fuel monitor "
-                 "(8*len+256 lexer steps, confirmed at 1000x). Every filter that parses is evaluated on a record of a 5-record world "
+                 "(16*len+512 decoder steps, confirmed at 1000x). Every filter that parses is evaluated on a record of a 5-record world "
                  "whose ref tags form cycles and self-loops, through Dict::filter and through EvalContext over the real defs namespace "
                  "(tests/defs/defs.zinc) with a resolver that aborts the evaluation if asked more than 40 times (4*(records+1)+16)"),
         "assumptions": ["termination restated as bounded steps: lexer fuel for parsing, resolver-call cap for evaluation; a loop that touches "
